@@ -17,6 +17,7 @@ formats with round-trip and soundness theorems.  Ties to /repo, every run:
      signature / PSV0 part structure, determinism."""
 import json
 import os
+import time
 from concurrent.futures import ThreadPoolExecutor
 
 import dxilgen
@@ -50,6 +51,27 @@ def run_model_parallel(exe, values, workers=None):
             for i, r in zip(ix, res):
                 out[i] = r
     return out
+
+
+SITE_KEYS = ("sig:psv-vectors:", "sig:psv-elements-missing:")
+
+
+def final_key(k, where):
+    """keys that already name a site stay as they are; the others get the program appended"""
+    return k if k.startswith(SITE_KEYS) else "%s:%s" % (k, where)
+
+
+def capped_violation(ctx, cls, what, files, key, cap=3):
+    """ctx.violation, but at most `cap` replay directories per class of violation (a seeded defect shows in hundreds of
+    programs of a systematic family); the rest is counted in the evidence"""
+    seen = ctx.cov.setdefault("violations_per_class", {})
+    if seen.get(cls, 0) >= cap:
+        seen[cls] += 1
+        return None
+    r = ctx.violation(what, files=files, key=key)
+    if r is not False:           # a listed known finding does not use up the budget of its class
+        seen[cls] = seen.get(cls, 0) + 1
+    return r
 
 
 # ------------------------------------------------------------------ C: writer operations
@@ -231,7 +253,7 @@ def compile_jobs(ctx, tier_programs, configs_per_program):
     corpus = nagarun.corpus()
     if not ctx.thorough:
         # quick tier: the shaders that exercise special paths always, plus a seeded sample of the rest
-        always = {"f16.wgsl", "mesh-shader.wgsl", "debug-symbol-simple.wgsl", "boids.wgsl", "shadow.wgsl", "atomicOps.wgsl", "control-flow.wgsl", "collatz.wgsl"}
+        always = {"f16.wgsl", "mesh-shader.wgsl", "barycentrics.wgsl", "clip-distances.wgsl", "debug-symbol-simple.wgsl", "boids.wgsl", "shadow.wgsl", "atomicOps.wgsl", "control-flow.wgsl", "collatz.wgsl"}
         rest = rng.fork("subset").shuffle([c for c in corpus if c[0] not in always])[:40]
         corpus = [c for c in corpus if c[0] in always] + rest
     all_cfg = [(sm, byp, bm) for sm in range(7) for byp in (False, True) for bm in (0, 1, 2)]
@@ -285,7 +307,7 @@ def expect_report(rep, stage, sm, bypass, entry=None):
         bad.append(("meta:" + str(mt.get("err")), "operand index check failed: %s %s" % (mt.get("err"), json.dumps(mt.get("at"))[:300])))
     sg = rep.get("sig")
     if sg is not None and not sg.get("ok"):
-        bad.append(("sig:" + str(sg.get("err")), "signature / PSV0 part inconsistent: %s" % sg.get("err")))
+        bad.append(sig_rule_key(sg.get("err"), rep.get("sigs"), stage, None))
     pv = rep.get("psv")
     if pv and entry is not None and bytes(pv["entry"]).decode("latin1") != entry:
         bad.append(("psv-entry-name", "PSV0 entry function name %r differs from the entry point %r" % (bytes(pv["entry"]).decode("latin1"), entry)))
@@ -325,6 +347,99 @@ def classify_difference(exe, h1, h2):
     return "blocks:" + ",".join(str(w) for w in sorted(where, key=str))
 
 
+def report_history(ctx, exe, name, e, files):
+    """the three history monitors of one entry point: the caller's module is unchanged by dxil.Compile (deep snapshot before /
+    after each call), compiling the same ir.Module value twice gives the same bytes, and both agree with a compile of a freshly
+    lowered module.  Returns the number of violations reported."""
+    n = 0
+    if e.get("ir_mutated"):
+        # keyed by the kind of IR node that changed (path of Go type / field names), not by the program
+        site = str(e.get("mutated_site")).replace("/Statement.Kind", "").replace("/Module.", "/")
+        n += capped_violation(ctx, "caller-ir-mutated", "dxil.Compile modified the caller's ir.Module (%s compile; first difference at %s): %s entry %s" % (
+                                  e.get("mutated_by"), e.get("mutated_where"), name, e["name"]),
+                              dict(files, **{"mutation.json": json.dumps({k: e.get(k) for k in ("mutated_by", "mutated_where", "mutated_site")}, indent=1)}),
+                              "recompile-same-module:caller-ir-mutated:" + site) is True
+    if e.get("deterministic") is False:
+        cls = classify_difference(exe, e["hex"], e["hex_fresh"]) if "hex_fresh" in e else "error:" + str(e.get("fresh_err"))[:60]
+        f2 = dict(files)
+        if "hex_fresh" in e:
+            f2["second.dxbc"] = bytes.fromhex(e["hex_fresh"])
+        n += ctx.violation("output not deterministic: %s entry %s compiled twice from freshly lowered modules gives different bytes (%s)" % (name, e["name"], cls),
+                           files=f2, key="nondeterministic-output:" + cls) is True
+    if e.get("same_module_again") is False:
+        cls = classify_difference(exe, e["hex"], e["hex_again"]) if "hex_again" in e else "error:" + str(e.get("again_err"))[:60]
+        f2 = dict(files)
+        if "hex_again" in e:
+            f2["second.dxbc"] = bytes.fromhex(e["hex_again"])
+        if e.get("ir_mutated"):
+            # consequence of the mutation reported above: same site key, so one defect is one finding
+            site = str(e.get("mutated_site")).replace("/Statement.Kind", "").replace("/Module.", "/")
+            n += capped_violation(ctx, "recompile-after-mutation", "compiling the same ir.Module value a second time gives different bytes (%s) after dxil.Compile "
+                                  "modified it at %s: %s entry %s" % (cls, e.get("mutated_where"), name, e["name"]),
+                                  f2, "recompile-same-module:caller-ir-mutated:" + site) is True
+        elif not (cls == "function-block-phi-order" and e.get("deterministic") is False):
+            n += ctx.violation("compiling the same ir.Module value a second time gives different bytes (%s): %s entry %s" % (cls, name, e["name"]),
+                               files=f2, key="recompile-same-module:" + cls) is True
+    elif e.get("again_equals_fresh") is False and e.get("deterministic") is not False:
+        n += ctx.violation("the second compile of a re-used ir.Module differs from the compile of a freshly lowered module: %s entry %s" % (name, e["name"]),
+                           files=files, key="recompile-same-module:differs-from-fresh") is True
+    return n
+
+
+def tie_recompile(ctx, tools, exe, n_check):
+    """history monitors on the systematic family of nested control flow with promotable locals (dxilgen.nest_programs):
+    every container x nested statement x local kind, entry point and helper function"""
+    progs = dxilgen.nest_programs()
+    jobs = [{"id": i, "src": src, "opts": {"sm_minor": i % 7, "bypass": True, "bindmap": 0}} for i, (key, stage, src) in enumerate(progs)]
+    res = nagarun.parallel_batches(tools["dxildrive"], "compile", jobs, per_job_timeout=60.0, chunk=24)
+    stats = {"programs": len(progs), "frontend_rejected": 0, "invalid_modules": 0, "backend_errors": 0, "entry_points_compiled_3x": 0,
+             "violating_checks": 0}
+    rejected = []
+    err_kinds = {}
+    items = []
+    distinct = set()
+    for j in jobs:
+        key, stage, src = progs[j["id"]]
+        r = res.get(j["id"])
+        if r is None or "crash" in r:
+            ctx.violation("dxildrive crashed (%s) compiling %s" % ((r or {}).get("crash"), key), files={"input.wgsl": src}, key="crash:" + key)
+            continue
+        if "eps" not in r:
+            stats["frontend_rejected"] += 1
+            rejected.append((key, str(r.get("err"))[:160]))
+            continue
+        if not r.get("valid", True):
+            stats["invalid_modules"] += 1
+        for e in r["eps"]:
+            if "hex" not in e:
+                stats["backend_errors"] += 1
+                k = e.get("err", "")[:60]
+                err_kinds[k] = err_kinds.get(k, 0) + 1
+                if e.get("err", "").startswith("panic:"):
+                    ctx.violation("dxil.Compile panicked instead of returning an error: %s (%s)" % (e["err"][:300], key),
+                                  files={"input.wgsl": src, "options.json": json.dumps(dict(j["opts"], entry=e["name"]))}, key="compile-panic:%s@%s" % (e["err"][7:60], e.get("panic_site", "?")))
+                continue
+            stats["entry_points_compiled_3x"] += 1
+            distinct.add(e["hex"][40:])
+            files = {"input.wgsl": src, "options.json": json.dumps(dict(j["opts"], entry=e["name"])), "actual.dxbc": bytes.fromhex(e["hex"])}
+            stats["violating_checks"] += report_history(ctx, exe, key, e, files)
+            items.append((j, key, e))
+    # a slice also goes through the whole-container checker
+    full = items[::max(1, len(items) // max(1, n_check))]
+    for (j, key, e), rep in zip(full, run_model_parallel(exe, [{"mode": "check", "bytes": list(bytes.fromhex(e["hex"]))} for _, _, e in full])):
+        for k, text in expect_report(rep, e["stage"], j["opts"]["sm_minor"], True, e["name"]):
+            stats["violating_checks"] += 1
+            ctx.violation("%s entry point %s (stage %s): %s" % (key, e["name"], e["stage"], text),
+                          files={"input.wgsl": progs[j["id"]][2], "options.json": json.dumps(dict(j["opts"], entry=e["name"])), "actual.dxbc": bytes.fromhex(e["hex"])},
+                          key=final_key(k, key))
+    stats["whole_container_checked"] = len(full)
+    stats["frontend_rejected_examples"] = rejected[:5]
+    stats["backend_error_kinds"] = dict(sorted(err_kinds.items(), key=lambda x: -x[1])[:8])
+    stats["distinct_outputs"] = len(distinct)
+    ctx.cov["recompile"] = stats
+    return len(items), len(distinct)
+
+
 def tie_real_output(ctx, tools, exe, n_gen, cfgs):
     jobs, meta = compile_jobs(ctx, n_gen, cfgs)
     res = nagarun.parallel_batches(tools["dxildrive"], "compile", jobs, per_job_timeout=60.0, chunk=12)
@@ -350,7 +465,7 @@ def tie_real_output(ctx, tools, exe, n_gen, cfgs):
                 err_kinds[k] = err_kinds.get(k, 0) + 1
                 if e.get("err", "").startswith("panic:"):
                     ctx.violation("dxil.Compile panicked instead of returning an error: %s (%s entry %s, SM 6.%d)" % (e["err"][:300], name, e["name"], sm),
-                                  files={"input.wgsl": src, "options.json": json.dumps(j["opts"])}, key="compile-panic:" + e["err"][7:60])
+                                  files={"input.wgsl": src, "options.json": json.dumps(j["opts"])}, key="compile-panic:%s@%s" % (e["err"][7:60], e.get("panic_site", "?")))
                 continue
             stats["containers"] += 1
             stats["by_sm"][sm] = stats["by_sm"].get(sm, 0) + 1
@@ -376,32 +491,13 @@ def tie_real_output(ctx, tools, exe, n_gen, cfgs):
         for key, text in expect_report(rep, e["stage"], sm, byp, e["name"]):
             nviol += 1
             ctx.violation("%s entry point %s (stage %s, SM 6.%d, bypass=%s, bindmap=%d): %s" % (name, e["name"], e["stage"], sm, byp, bm, text),
-                          files=files, key=("%s:%s" % (key, e["stage"])) if key.startswith("sig:PSV0 declares primitive") else "%s:%s:%s" % (key, name, e["name"]))
+                          files=files, key=key if key.startswith(SITE_KEYS) else ("%s:%s" % (key, e["stage"])) if key.startswith("sig:PSV0 declares primitive")
+                          else "%s:%s:%s" % (key, name, e["name"]))
         if len(ctx.cov["samples"]) < 4 and rep.get("ok"):
             ctx.sample({"program": name, "entry": e["name"], "sm": "6.%d" % sm, "bytes": len(e["hex"]) // 2,
                         "parts": [int(p[0]).to_bytes(4, "little").decode("latin1") + ":%d" % p[1] for p in rep["parts"]],
                         "digest": rep["digest"], "records": rep["stream"].get("records"), "blocks": rep["stream"].get("blocks")})
-        # determinism (freshly lowered module) and history independence (same module value again)
-        if e.get("deterministic") is False:
-            cls = classify_difference(exe, e["hex"], e["hex_fresh"]) if "hex_fresh" in e else "error:" + str(e.get("fresh_err"))[:60]
-            f2 = dict(files)
-            if "hex_fresh" in e:
-                f2["second.dxbc"] = bytes.fromhex(e["hex_fresh"])
-            ctx.violation("output not deterministic: %s entry %s compiled twice from freshly lowered modules gives different bytes (%s)" % (name, e["name"], cls),
-                          files=f2, key="nondeterministic-output:" + cls)
-        if e.get("same_module_again") is False:
-            if e.get("ir_mutated"):
-                cls = "caller-ir-mutated"
-            elif "hex_again" in e:
-                cls = classify_difference(exe, e["hex"], e["hex_again"])
-            else:
-                cls = "error:" + str(e.get("again_err"))[:60]
-            f2 = dict(files)
-            if "hex_again" in e:
-                f2["second.dxbc"] = bytes.fromhex(e["hex_again"])
-            if not (cls == "function-block-phi-order" and e.get("deterministic") is False):
-                ctx.violation("compiling the same ir.Module value a second time gives different bytes (%s): %s entry %s" % (cls, name, e["name"]),
-                              files=f2, key=("recompile-same-module:" + cls) if cls == "caller-ir-mutated" else ("nondeterministic-output:" + cls))
+        report_history(ctx, exe, name, e, files)
     stats["backend_error_kinds"] = dict(sorted(err_kinds.items(), key=lambda x: -x[1])[:8])
     stats["distinct_outputs"] = len(distinct)
     if sizes:
@@ -410,6 +506,148 @@ def tie_real_output(ctx, tools, exe, n_gen, cfgs):
         stats["records_per_module"] = {"min": min(recs), "max": max(recs)}
     stats["violating_checks"] = nviol
     ctx.cov["real_output"] = stats
+    return len(items), len(distinct)
+
+
+# ------------------------------------------------------------------ V: stage interfaces (PSV0 vs ISG1/OSG1), systematic
+
+def sig_problems(rep, stage):
+    """(key, text) for a report of the extractor's "sig" mode"""
+    if not rep.get("ok"):
+        return [("dxbc-structure", "bytes are not a canonical DXBC container: " + str(rep.get("err")))]
+    bad = []
+    if not rep["order_ok"]:
+        bad.append(("part-order", "unexpected part list %s" % [int(p[0]).to_bytes(4, "little").decode("latin1") for p in rep["parts"]]))
+    dx = rep.get("dxil")
+    if not dx or dx["kind"] != STAGE_KIND.get(stage, -1):
+        bad.append(("program-kind", "program header missing or its shader kind does not match stage %s" % stage))
+    sg = rep.get("sig")
+    if sg is not None and not sg.get("ok"):
+        bad.append(sig_rule_key(sg.get("err"), rep.get("sigs"), stage, None))
+    return bad
+
+
+def sig_rule_key(err, sigs, stage, where):
+    """(stable key, text) of a failed signature rule.  The two vector-count rules are keyed by their site - direction,
+    stage, semantic kind of the element that reaches the highest row, declared count above / below that row - so that
+    one defect is one key whatever program shows it; the other rules are keyed by the program (`where`, appended by the caller)."""
+    text = "signature / PSV0 part inconsistent: %s" % err
+    for d, field, label in (("ins", "vin", "SigInputVectors"), ("outs", "vouts", "SigOutputVectors")):
+        if sigs and str(err).startswith("PSV0 %s is not" % label):
+            els = [e for e in sigs.get(d) or [] if e["allocated"] and (d == "ins" or e["stream"] == 0)]
+            top = max([e["start_row"] + e["rows"] for e in els] + [0])
+            top_kind = ([e["kind"] for e in els if e["start_row"] + e["rows"] == top] or [-1])[-1]
+            declared = sigs["vin"] if d == "ins" else sigs["vouts"][0]
+            return ("sig:psv-vectors:%s:%s:top-kind%d:%s" % (d[:-1], stage, top_kind, "above" if declared > top else "below"),
+                    text + " (declared %d, elements reach row %d: %s)" % (
+                        declared, top, ", ".join("kind %d row %d+%d cols %d@%d" % (e["kind"], e["start_row"], e["rows"], e["cols"], e["start_col"]) for e in els)))
+    if str(err) == "PSV0 declares more signature elements than it stores":
+        # one defect (a signature element the PSV0 builder has no semantic for), one key per stage
+        return ("sig:psv-elements-missing:" + stage, text + " (ISG1 has %d element(s), OSG1 %d)" % (
+            len((sigs or {}).get("isg") or []), len((sigs or {}).get("osg") or [])))
+    return ("sig:" + str(err) + (":" + where if where else ""), text)
+
+
+def packing_profile(sigs, direction):
+    """what the packing of one signature exercised: rows revisited (an element lands in a row below the one a
+    previous element took), shared rows, whether the last allocated element sits below the top row"""
+    els = [e for e in (sigs or {}).get(direction) or [] if e["allocated"]]
+    rows = [e["start_row"] for e in els]
+    revisit = any(rows[i] < max(rows[:i]) for i in range(1, len(rows)))
+    shared = len(set(rows)) < len(rows)
+    last_below_top = bool(rows) and rows[-1] < max(rows)
+    return revisit, shared, last_below_top
+
+
+def tie_interfaces(ctx, tools, exe, n_random):
+    """every sequence over {scalar, vec2, vec3, vec4} of length 1..4 as the @location inputs and outputs of a vertex
+    and of a fragment entry point, without and with the builtins behind them (1360 entry points, not sampled), plus
+    n_random sampled modules with mixed scalar kinds / interpolation groups / declaration orders: the verified
+    container parser and the PSV0-vs-ISG1/OSG1 consistency rules on what dxil.Compile returns"""
+    rng = ctx.rng.fork("iface")
+    mods = dxilgen.iface_modules()
+    jobs = []
+    meta = {}
+    for src, entries in mods:
+        jid = len(jobs)
+        jobs.append({"id": jid, "src": src, "opts": {"sm_minor": 0, "bypass": True, "bindmap": 0, "once": True}})
+        meta[jid] = (src, dict(entries))
+    for i in range(n_random):
+        r = rng.fork("m%d" % i)
+        src, names = dxilgen.iface_random_module(r)
+        jid = len(jobs)
+        jobs.append({"id": jid, "src": src, "opts": {"sm_minor": r.below(7), "bypass": True, "bindmap": 0, "once": True}})
+        meta[jid] = (src, {n: "iface-random:%d:%s" % (i, n) for n in names})
+    res = nagarun.parallel_batches(tools["dxildrive"], "compile", jobs, per_job_timeout=60.0, chunk=6)
+    items = []
+    stats = {"modules": len(jobs), "entry_points": sum(len(m[1]) for m in meta.values()), "systematic_entry_points": sum(len(e) for _, e in mods),
+             "containers": 0, "frontend_rejected": 0, "invalid_modules": 0, "backend_errors": 0, "by_stage": {},
+             "signatures_with_revisited_row": 0, "signatures_with_shared_row": 0, "signatures_last_element_below_top_row": 0,
+             "elements_compared": 0, "unallocated_elements": 0}
+    err_kinds = {}
+    for j in jobs:
+        r = res.get(j["id"])
+        src, names = meta[j["id"]]
+        if r is None or "crash" in r:
+            ctx.violation("dxildrive crashed (%s) compiling an interface module" % (r or {}).get("crash"), files={"input.wgsl": src},
+                          key="crash:" + sorted(names.values())[0])
+            continue
+        if "eps" not in r:
+            stats["frontend_rejected"] += 1
+            ctx.cov.setdefault("iface_frontend_errors", [])
+            if len(ctx.cov["iface_frontend_errors"]) < 3:
+                ctx.cov["iface_frontend_errors"].append(str(r.get("err"))[:200])
+            continue
+        if not r.get("valid", True):
+            stats["invalid_modules"] += 1
+        for e in r["eps"]:
+            key = names.get(e["name"], "iface:?")
+            if "hex" not in e:
+                stats["backend_errors"] += 1
+                k = e.get("err", "")[:60]
+                err_kinds[k] = err_kinds.get(k, 0) + 1
+                if e.get("err", "").startswith("panic:"):
+                    ctx.violation("dxil.Compile panicked instead of returning an error: %s (%s entry %s)" % (e["err"][:300], key, e["name"]),
+                                  files={"input.wgsl": src, "options.json": json.dumps(dict(j["opts"], entry=e["name"]))},
+                                  key="compile-panic:%s@%s" % (e["err"][7:60], e.get("panic_site", "?")))
+                continue
+            items.append((j, key, e))
+    reports = run_model_parallel(exe, [{"mode": "sig", "bytes": list(bytes.fromhex(e["hex"]))} for _, _, e in items])
+    distinct = set()
+    nviol = 0
+    for (j, key, e), rep in zip(items, reports):
+        src = meta[j["id"]][0]
+        stats["containers"] += 1
+        stats["by_stage"][e["stage"]] = stats["by_stage"].get(e["stage"], 0) + 1
+        sigs = rep.get("sigs") or {}
+        for d in ("ins", "outs"):
+            rv, sh, lb = packing_profile(sigs, d)
+            stats["signatures_with_revisited_row"] += rv
+            stats["signatures_with_shared_row"] += sh
+            stats["signatures_last_element_below_top_row"] += lb
+            stats["elements_compared"] += len(sigs.get(d) or [])
+            stats["unallocated_elements"] += sum(1 for x in sigs.get(d) or [] if not x["allocated"])
+        distinct.add(json.dumps([sigs.get(k) for k in ("vin", "vouts", "ins", "outs", "isg", "osg")]))
+        for k, text in sig_problems(rep, e["stage"]):
+            nviol += 1
+            capped_violation(ctx, k, "%s entry point %s (stage %s): %s" % (key, e["name"], e["stage"], text),
+                             {"input.wgsl": src, "options.json": json.dumps(dict(j["opts"], entry=e["name"], mode="sig")),
+                              "actual.dxbc": bytes.fromhex(e["hex"]), "report.json": json.dumps(rep, indent=1)[:200000]},
+                             final_key(k, key))
+    # a slice of the sweep also goes through the whole-container checker (digest, HASH, bitstream, operand indices)
+    step = max(1, len(items) // ctx.scale(40, 400))
+    full = items[::step]
+    for (j, key, e), rep in zip(full, run_model_parallel(exe, [{"mode": "check", "bytes": list(bytes.fromhex(e["hex"]))} for _, _, e in full])):
+        for k, text in expect_report(rep, e["stage"], j["opts"]["sm_minor"], True, e["name"]):
+            nviol += 1
+            ctx.violation("%s entry point %s (stage %s): %s" % (key, e["name"], e["stage"], text),
+                          files={"input.wgsl": meta[j["id"]][0], "options.json": json.dumps(dict(j["opts"], entry=e["name"])),
+                                 "actual.dxbc": bytes.fromhex(e["hex"])}, key=final_key(k, key))
+    stats["whole_container_checked"] = len(full)
+    stats["backend_error_kinds"] = dict(sorted(err_kinds.items(), key=lambda x: -x[1])[:8])
+    stats["distinct_signature_layouts"] = len(distinct)
+    stats["violating_checks"] = nviol
+    ctx.cov["interfaces"] = stats
     return len(items), len(distinct)
 
 
@@ -430,10 +668,8 @@ def replay(ctx, tools, exe):
         probs = expect_report(rep, e["stage"], o.get("sm_minor", 0), o.get("bypass", False))
         for key, text in probs:
             ctx.violation("replay %s entry %s: %s" % (d, e["name"], text), files={"input.wgsl": src, "options.json": json.dumps(o)}, key=key + ":replay")
-        if e.get("deterministic") is False:
-            ctx.violation("replay %s entry %s: output not deterministic" % (d, e["name"]), files={"input.wgsl": src, "options.json": json.dumps(o)},
-                          key="nondeterministic-output:" + (classify_difference(exe, e["hex"], e["hex_fresh"]) if "hex_fresh" in e else "error"))
-        print("replayed %s entry %s: %d problem(s)" % (d, e["name"], len(probs)))
+        nh = report_history(ctx, exe, "replay " + d, e, {"input.wgsl": src, "options.json": json.dumps(o)})
+        print("replayed %s entry %s: %d problem(s)" % (d, e["name"], len(probs) + nh))
 
 
 # ------------------------------------------------------------------ run
@@ -474,10 +710,21 @@ def run(ctx):
         if getattr(ctx, "replay", None):
             replay(ctx, tools, exe)
             return
-        n1, b1 = tie_writer(ctx, tools, exe, ctx.scale(600, 60000))
-        n2, b2 = tie_container(ctx, tools, exe, ctx.scale(120, 8000))
-        n3, b3 = tie_hash(ctx, tools, exe, ctx.scale(20, 3000))
-        ncont, ndist = tie_real_output(ctx, tools, exe, ctx.scale(21, 900), ctx.scale(1, 14))
+        phases = ctx.cov.setdefault("phase_seconds", {})
+
+        def timed(name, f, *a):
+            t0 = time.time()
+            r = f(ctx, tools, exe, *a)
+            phases[name] = round(time.time() - t0, 1)
+            return r
+        n1, b1 = timed("writer", tie_writer, ctx.scale(600, 60000))
+        n2, b2 = timed("container", tie_container, ctx.scale(120, 8000))
+        n3, b3 = timed("hash", tie_hash, ctx.scale(20, 3000))
+        ncont, ndist = timed("real_output", tie_real_output, ctx.scale(21, 900), ctx.scale(1, 14))
+        nif, ndif = timed("interfaces", tie_interfaces, ctx.scale(24, 2000))
+        nrc, ndrc = timed("recompile", tie_recompile, ctx.scale(24, 578))
+        ncont += nif + nrc
+        ndist += ndif + ndrc
         evaluations = ctx.cov["writer_correspondence"]["sequences"] + ctx.cov["container_correspondence"]["part_lists"] + \
             ctx.cov["hash_correspondence"]["inputs"] + ncont
         nontrivial = n1 + n2 + n3 + ndist
